@@ -67,13 +67,15 @@ func (l nopLogger) With(...interface{}) golog.Logger { return l }
 
 // Opts selects how the world is put together.
 type Opts struct {
-	Dir      string // scratch directory owned by the caller
-	Drive    string // path of the drive file (default Dir/drive.tar)
-	DB       string // path of the sqlite index (default Dir/index.sqlite)
-	ReadOnly bool
-	NilWrite bool // read-only the way `serve http` builds it: writeOps=nil, getFileBuffer=nil
-	Stranger bool // use the stranger's private halves for reading (C08/C09)
-	NoInit   bool // do not call Initialize
+	// StrangerSig: signatures are verified with the stranger's public key (decryption keys stay the owner's)
+	StrangerSig bool
+	Dir         string // scratch directory owned by the caller
+	Drive       string // path of the drive file (default Dir/drive.tar)
+	DB          string // path of the sqlite index (default Dir/index.sqlite)
+	ReadOnly    bool
+	NilWrite    bool // read-only the way `serve http` builds it: writeOps=nil, getFileBuffer=nil
+	Stranger    bool // use the stranger's private halves for reading (C08/C09)
+	NoInit      bool // do not call Initialize
 	// Overwrite builds the tape manager the way `stfs operation initialize` and
 	// `operation archive --overwrite` do: the first writer starts the tape over.
 	Overwrite bool
@@ -170,6 +172,10 @@ func New(cfg Cfg, o Opts) (*World, error) {
 		rk = Stranger()
 	}
 	w.ReadCrypto = config.CryptoConfig{Recipient: rk.SigRecipient(cfg.Signature), Identity: rk.EncIdentity(cfg.Encryption)}
+	if o.StrangerSig {
+		// the reader can decrypt, but verifies against another writer's public key
+		w.ReadCrypto.Recipient = Stranger().SigRecipient(cfg.Signature)
+	}
 	w.WriteCrypto = config.CryptoConfig{Recipient: ks.EncRecipient(cfg.Encryption), Identity: ks.SigIdentity(cfg.Signature)}
 	mc := config.MetadataConfig{Metadata: w.Meta}
 	pipes := cfg.Pipes()
